@@ -30,9 +30,8 @@ Definition cli_only : list (string * string) :=
     ("memprofile", "the analysis driver has its own -memprofile");
     ("cpuprofile", "the analysis driver has its own -cpuprofile") ].
 
-(* numeric flags that parseArgs passes on unchecked (recorded finding C16/exit-status/code-outside-0-255-wraps;
-   the entry stays valid after the repair: the obligation asks for validated OR listed) *)
-Definition int_flags_unchecked_known : list string := ["exitCode"].
+(* numeric flags that parseArgs passes on unchecked: none (-exitCode was one until its range check was added) *)
+Definition int_flags_unchecked_known : list string := [].
 
 Definition accounted (f : flag_decl) : bool :=
   mem (fl_name f) (map (fun c => fst (fst c)) counterpart) || mem (fl_name f) (map fst cli_only).
